@@ -2,7 +2,8 @@
    X01 string helpers (StrUtil.tla)   X02 GetClientIP (ClientIP.tla)   X03 FirstIP/LastIP (IpRange.tla)
    X04 Nano handler line format (NanoLine.tla, scenarios from JsonLineMC)   X05 ResponseWriter / reply helpers (HttpHelpers.tla)
    X06 Logger front end (LogFront.tla)   X07 config value texts + usage (ValueLit.tla)   X08 ReadRand, ansi texts, SliceContain (Misc.tla)
-   X09 colour on versus colour off (Colour.tla)   X10 struct tag syntax (TagParse.tla)"""
+   X09 colour on versus colour off (Colour.tla)   X10 struct tag syntax (TagParse.tla)
+   X11 daemon.Run role dispatch, Launch outcomes off the protocol (DaemonRole.tla)"""
 import json
 import vlib
 from vlib import judge
@@ -64,6 +65,11 @@ def run(ctx, which):
         what = lambda c: "tag %r on field %s: rejected=%s found=%s name=%r default=%r usage=%r" % (
             bytes(c["tag"]).decode("latin1"), bytes(c["field"]).decode(), c["rejected"], c["found"], bytes(c["name"]).decode("latin1"),
             bytes(c["def"]).decode("latin1"), bytes(c["usage"]).decode("latin1"))
+    elif which == "X11":
+        ctx.run([hb, "-mode", "roles", "-out", out], timeout=300)
+        rows = vlib.read_ndjson(out)
+        bad, _, _ = judge(ctx, "daemon", "DaemonRole", rows, nshards=1, workers=2, timeout=300)
+        what = lambda c: json.dumps(c)[:300]
     elif which == "X06":
         ctx.run([hb, "-mode", "front", "-out", out], timeout=600)
         rows = vlib.read_ndjson(out)
